@@ -92,7 +92,8 @@ HOT_FUNCTIONS = frozenset({
     "submit_task", "resubmitter", "execute", "create_checkpoint", "_enqueue", "_collect_checkpoint_batch",
     "checkpoint_batches_forever", "_mark_orphans", "track_replay", "set", "wait", "acquire", "release", "__exit__",
     "complete", "fail", "suspend", "suspend_with_timeout", "reset_to_pending", "run", "complete_task", "fail_task",
-    "should_complete", "get_checkpoint_result", "fetch_paginated_operations",
+    "should_complete", "get_checkpoint_result", "fetch_paginated_operations", "_completed_operation_ids",
+    "_is_inside_completed_context", "start_replay_if_history_has_completed_operations", "raise_if_orphaned",
 })
 
 
